@@ -687,7 +687,7 @@ pub fn c11_sequential(run: &Run, tier: Tier, budget_s: u64) {
         let mut a = Alphabet::basic();
         a.users = vec![1, 2];
         a.disps = vec![1];
-        a.blobs = vec![(Blob::Valid, false), (Blob::Alt, false), (Blob::Raw(40), false), (Blob::Bad, false), (Blob::Large, false)];
+        a.blobs = vec![(Blob::Valid, false), (Blob::Alt, false), (Blob::Raw(40), false), (Blob::Raw(15), false), (Blob::Bad, false), (Blob::Large, false)];
         a.max_registers_per_user = 2;
         a.max_adds = 6;
         a.split_poll = true;
